@@ -23,6 +23,7 @@ def run(tier, seed):
     per = 4000000 if tier == "thorough" else 400000
     cases, sums, notes = core.run_sharded(exe, "c13", seed, tier, core.NCPU if tier == "thorough" else 5, extra={"n": per}, timeout=3000)
     r.add_cases(cases, "native")
+    core.also_librel(r, tier, True, lambda exe2: core.run_sharded(exe2, "c13", seed, tier, core.NCPU if tier == "thorough" else 5, extra={"n": per}, timeout=3000))
     r.notes += notes
     obs = core.sum_dicts(sums)
     r.observe("native", obs)
@@ -43,7 +44,7 @@ def replay(path):
         p = subprocess.run([exe, 'c13sim', '--seed', str(rp['seed']), '--tier', rp['tier'], '--only', str(rp['case_index'])], stdout=subprocess.PIPE, text=True)
         print(p.stdout[-2500:])
         return 1 if ('"verdict":"violated"' in p.stdout or p.returncode != 0) else 0
-    exe = core.build_native()
+    exe = core.build_native(libopt="librel" in str(rp.get("engine", "")))
     p = subprocess.run([exe, "c13", "--seed", str(rp["seed"]), "--tier", rp["tier"], "--only", str(rp["case_index"]), "--n", str(rp.get("args", {}).get("n", 40000))], stdout=subprocess.PIPE, text=True)
     print(p.stdout[-2000:])
     return 1 if ('"verdict":"violated"' in p.stdout or p.returncode != 0) else 0
